@@ -336,3 +336,85 @@ def c10(res):
 def copy_actor(a):
     import copy
     return copy.deepcopy(a)
+
+
+def c19(res):
+    """C19: Explorer web service, Path API, on-demand checker vs specs/Explorer.tla."""
+    rng = random.Random(seed() * 1000 + 19)
+    q = res.tier == "quick"
+    wd = workdir("C19-%s" % res.tier)
+    graphs = [force_sentinel(g) for g in gg.f1_corpus(rng, 30 if q else 300)]
+    graphs += [force_sentinel(gg.random_graph(rng, "F2-%d" % i, 3, 8)) for i in range(50 if q else 700)]
+    graphs += [force_sentinel(gg.random_forest(rng, "F3-%d" % i, 4, 9)) for i in range(15 if q else 150)]
+    # some graphs without the sentinel so that "all properties discovered" endings occur in the status view
+    graphs += [gg.random_graph(rng, "F2n-%d" % i, 3, 8, sentinel=False) for i in range(15 if q else 150)]
+    for g in graphs:
+        for p in g["props"]:
+            if p["kind"] == "eventually":           # exactness of eventually verdicts is not part of C19
+                p["kind"] = rng.choice(["always", "sometimes"])
+    items = []
+    nweb = 0
+    for i, g in enumerate(graphs):
+        reqs = []
+        has_sentinel = any(p["name"] == "keep" for p in g["props"])
+        if has_sentinel:
+            for _ in range(2):
+                # a request sequence walking the graph: mostly pending states, sometimes arbitrary ones
+                ev, seq = set(), []
+                for _ in range(rng.randint(1, 5)):
+                    pend = set(s for s in g["init"] if g["inb"][s - 1])
+                    for e in ev:
+                        pend |= set(t for t in g["succ"][e - 1] if t and g["inb"][t - 1])
+                    pend -= ev
+                    if pend and rng.random() < 0.8:
+                        r = rng.choice(sorted(pend))
+                        ev.add(r)
+                    else:
+                        r = rng.randint(1, g["n"])
+                        if r in pend:
+                            ev.add(r)
+                    seq.append(r)
+                reqs.append(seq)
+        web = (i % 2 == 0) or not q
+        nweb += web
+        items.append(dict(g=g, gi=i + 1, depth=3, seed=rng.randint(1, 2 ** 40), requests=reqs, web=web))
+    gp = os.path.join(wd, "graphs.ndjson")
+    ip = os.path.join(wd, "items.ndjson")
+    rp = os.path.join(wd, "recs.ndjson")
+    op = os.path.join(wd, "out.json")
+    write_ndjson(gp, graphs)
+    write_ndjson(ip, items)
+    run_vh(["explorer", "--in", ip, "--out", rp], timeout=3000)
+    recs = read_ndjson(rp)
+    r = run_tlc("JudgeExplorer.tla", "cfg/empty.cfg", env=dict(GRAPHS=gp, RECS=rp, OUT=op), timeout=3000, heap="8g", name="jexplorer")
+    if not r["ok"]:
+        raise ToolError("explorer judge failed: " + r["out"][-3000:])
+    o = json.load(open(op))
+    nq = 0
+    for rec, j in zip(recs, o["judged"]):
+        nq += j["n_queries"] + j["n_paths"] + j["n_od"]
+        for f in j["failed"]:
+            g = graphs[rec["gi"] - 1]
+            payload = dict(check=f, graph={k: g[k] for k in ("n", "init", "succ", "inb", "props")})
+            if f.startswith("ondemand"):
+                payload["ondemand"] = rec["ondemand"]
+            elif f == "path_api":
+                payload["paths"] = rec["paths"][:40]
+            else:
+                payload["web"] = {k: rec["web"][k] for k in ("status0", "status1", "init_view", "raw")}
+                payload["queries"] = rec["web"]["queries"][:30]
+            res.violation("%s" % f, payload)
+    mc_graph(res, wd, graphs)
+    res.traces += len(recs)
+    res.evaluations += nq
+    res.nontrivial += nq
+    res.samples.append(dict(graph={k: graphs[0][k] for k in ("n", "init", "succ")}, first_queries=recs[0]["web"].get("queries", [])[:3],
+                            status_after_run_to_completion=recs[0]["web"].get("status1")))
+    res.notes.append("%d graphs, %d served by a real Explorer instance on loopback; %d HTTP queries / path round trips / on-demand request sequences judged" % (len(graphs), nweb, nq))
+    res.rule = ("real serve() on a loopback port per graph: GET /.states for every execution up to depth 3 (all initial states, "
+                "defined transitions, ignored actions) and for random non-executions, unknown / zero / garbage fingerprints, "
+                "trailing slash; /.status before and after POST /.runtocompletion (counts, per-property witness paths decoded "
+                "from fingerprints); Path::from_actions / encode / into_* on all action lists up to depth 3 incl. disabled and "
+                "ignored actions; spawn_on_demand driven by request sequences (each pending requested state is evaluated, "
+                "nothing else is, run_to_completion finishes like BFS)")
+    shutil.rmtree(wd, ignore_errors=True)
